@@ -179,6 +179,10 @@ func main() {
 	defer out.Flush()
 	mode := os.Args[1]
 	cases := readCases(os.Args[2])
+	if mode == "writeconc" {
+		runWriteConc(cases)
+		return
+	}
 	for _, c := range cases {
 		fmt.Fprintln(out, c[0])
 		out.Flush()
